@@ -217,8 +217,11 @@ def multiple_of(r, sig):
 
 def check_ceil_floor(ctx, x, sig):
     rec = ctx.rec
-    exact = dyadic(x) and dyadic(sig)
-    fx, fs = Fraction(x), Fraction(sig)
+    # judged on the shortest decimal renderings of x and of the significance
+    # (0.3 IS a multiple of 0.1), like ROUND
+    exact = True
+    fx = Fraction(Decimal(repr(float(x))))
+    fs = Fraction(Decimal(repr(float(sig))))
     nontrivial = x < 0 or sig <= 0 or not float(sig).is_integer()
     cls = (f'x{"neg" if x < 0 else "zero" if x == 0 else "pos"}:'
            f's{"neg" if sig < 0 else "zero" if sig == 0 else "pos"}')
@@ -281,7 +284,7 @@ def check_ceil_floor(ctx, x, sig):
             rec.fail(f'{func}:type:{cls}', case, f'{func}{args!r} = {got!r}')
             continue
         if exact:
-            if Fraction(got) != want:
+            if Fraction(Decimal(repr(float(got)))) != want:
                 rec.fail(f'{func}:value:{cls}', case,
                          f'{func}{args!r} = {got!r}, expected {float(want)!r}')
         else:
